@@ -1,15 +1,15 @@
-"""C06 kernels (and the n = 3 value clause of skyline LU, C16): bounded units (unwound).
+"""C06 kernels (and the n = 3 value clause of skyline LU, C16): bounded units (unwound), chebyshev_solve inductive.
 
   skyline_lu_factorize_values3   solver::skyline_lu::factorize(): the Crout recurrences with order-sensitive
                                  (uninterpreted) value operations on every skyline profile with n <= 3
   ilu_serial_solve               relaxation::detail::ilu_solve<builtin>::serial_solve
   sptr_solve_lower/_upper        ilu_solve<builtin>::sptr_solve<lower>::solve for one thread id
-  gs_parallel_sweep_fwd/_bwd     gauss_seidel::parallel_sweep<forward>::sweep for one thread id
+  gs_parallel_sweep              gauss_seidel::parallel_sweep<forward>::sweep for one thread id (same text for both directions)
   spai0_ctor                     relaxation::spai0 constructor
   ilu0_structure                 relaxation::ilu0 constructor (structure of L, U, D)
-  chebyshev_solve                relaxation::chebyshev::solve (call-level trace)
+  chebyshev_solve                relaxation::chebyshev::solve (call level, ghost automaton per step, every degree: inductive)
 
-Bounded units are never counted as proved."""
+Bounded units are never counted as proved.  Native replay: replay/relax2.cpp."""
 from cxc.extract import Cut, Rule, UF, IdxRule
 from cxc.unit import Unit
 from c16_direct import (A_SKY, SKY_HEAD, SKY_FUNCS, FACTORIZE_CUT, SKY_UNWINDSET, NOT_DECIDED_C16)
@@ -147,12 +147,31 @@ class UFByType(object):
 
     def apply(self, text, log):
         import re
-        from cxc.extract import uf_expr, ExtractError
+        from cxc.extract import uf_expr, ExtractError, _split_args
         ty = r'(?:%s)' % '|'.join(self.types)
-        names = set(re.findall(r'\b%s\s*(?:\*\s*(?:const\s+)?)?(\w+)\s*(?:=|;)' % ty, text))
+        fired = []
+        names = set()
+        # declarations `T a = e1, *b, c = e2;`: collect the declared names, rewrite every initialiser separately
+        def decl(m):
+            out = []
+            for part in _split_args(m.group('d')):
+                mm = re.match(r'(?P<h>\s*(?:\*\s*(?:const\s+)?)?(?P<n>\w+)\s*)(?:=(?P<e>.+))?$', part, re.S)
+                if not mm:
+                    out.append(part)
+                    continue
+                names.add(mm.group('n'))
+                if mm.group('e') is not None and '*' not in mm.group('h'):
+                    new = uf_expr(mm.group('e'))
+                    fired.append((mm.group('e').strip(), new))
+                    out.append(mm.group('h') + '= ' + new)
+                else:
+                    out.append(part)
+            return m.group('h') + ','.join(out) + ';'
+
+        text = re.sub(r'(?P<h>\b%s\s+)(?P<d>[*\w][^;{}]*);' % ty, decl, text, flags=re.M)
+        n = len(fired)
         lv = [r'\*?\b(?:%s)\b(?:\[[^;=]*\])?' % '|'.join(sorted(names))] if names else []
         lv += self.lvalues
-        fired = []
 
         def sub(m):
             e = m.group('e')
@@ -161,17 +180,15 @@ class UFByType(object):
             a, b = m.span('e')
             return m.group(0)[:a - m.start()] + new + m.group(0)[b - m.start():]
 
-        pats = [r'\b%s\s+\w+\s*=\s*(?P<e>[^;=][^;]*);' % ty]
-        pats += [r'(?:(?<=[;{})])|(?<=\belse)|^)\s*(?:%s)\s*=\s*(?P<e>[^;=][^;]*);' % l for l in lv]
-        n = 0
-        for p in pats:
-            text, k = re.subn(p, sub, text, flags=re.M)
+        for l in lv:
+            text, k = re.subn(r'(?:(?<=[;{})])|(?<=\belse)|^)\s*(?:%s)\s*=\s*(?P<e>[^;=][^;]*);' % l, sub, text, flags=re.M)
             n += k
         if self.count == '+' and n < 1:
             raise ExtractError('UFByType fired 0 times')
         log.append({'rule': 'R-arith by declared type ' + ty, 'fired': n, 'names': sorted(names),
                     'rewrites': [{'from': a, 'to': b} for a, b in fired]})
         return text
+
 
 SERIAL_SOLVE_CUT = Cut(
     ILUS, r'template <class Vector>\s*void serial_solve\(Vector &x\)\s*(?=\{)',
@@ -184,7 +201,7 @@ SERIAL_SOLVE_CUT = Cut(
     uf=[UF(r'x\[[^;=]*\]\s*=\s*(?P<e>[^;=][^;]*);', '+')])
 
 SPEC_TRI = r"""
-/* y = (I + L)^-1 x0 by forward substitution, z = D (I + D U)^-1 ... as documented for the ILU factors
+/* x := (D^-1 + U)^-1 (I + L)^-1 x0: y = (I + L)^-1 x0 by forward substitution, z = (D^-1 + U)^-1 y by backward substitution, for the ILU factors
  * (ilu0.hpp: L strictly lower with unit diagonal implied, U strictly upper, D the INVERTED pivots):
  *   y_i = x0_i - sum_{c < i} l_ic y_c                 rows ascending, entries of the row in stored order
  *   z_i = D_i * (y_i - sum_{c > i} u_ic z_c)          rows descending, entries of the row in stored order
@@ -210,7 +227,7 @@ static void spec_tri_solve(const crs *L, const crs *U, const V *D, const V *x0, 
 ilu_serial_solve = Unit(
     name='ilu_serial_solve', props=['C06', 'C10'],
     functions=['relaxation::detail::ilu_solve<builtin>::serial_solve(Vector&)'],
-    desc='serial triangular solves of the incomplete factorisations: x := D (I + D U)^-1 ... i.e. y_i = x_i - sum_{c<i} l_ic y_c (rows ascending), '
+    desc='serial triangular solves of the incomplete factorisations, x := (D^-1 + U)^-1 (I + L)^-1 x (D = inverted pivots): y_i = x_i - sum_{c<i} l_ic y_c (rows ascending), '
          'then x_i = D_i * (y_i - sum_{c>i} u_ic x_c) (rows descending), entries folded in stored order; only x is written; index safety',
     cuts={'body': SERIAL_SOLVE_CUT},
     template=UF16 + VEC_PRELUDE + SPEC_COMMON + SPEC_TRI + r"""
@@ -768,6 +785,115 @@ void h_ilu0(void)
 ilu0_structure.unwindset = [(r'for\(ptrdiff_t [jk] = ', 'NMAX+1'), (r'for\(ptrdiff_t i = 0;', 'NMAX+1')]
 ilu0_structure.cover_exempt = r'^canary set_size\.1$'   # crs::set_size(n, m, clean_ptr): the constructor passes the default clean_ptr = false, the zeroing branch is not taken
 
-UNITS = [sky_values3, ilu_serial_solve, sptr_solve_lower, sptr_solve_upper, gs_parallel_sweep, spai0_ctor, ilu0_structure]
+# ============================================================================ 6. relaxation::chebyshev::solve (call level, all degrees)
+from cxc.extract import Loop, UFArgs
+CHEB = 'amgcl/relaxation/chebyshev.hpp'
+
+CHEB_T = r"""
+#include "orch_trace.h"
+int g_thrown;
+#undef residual
+#undef vmul
+#undef axpby
+typedef struct cheb_prm { unsigned degree; V higher, lower; int power_iters; _Bool scale; } cheb_prm;
+/* data members of relaxation::chebyshev in declaration order: prm; M; p, r (mutable workspace); c, d */
+typedef struct cheb { cheb_prm prm; const vec *M; vec *p, *r; V c, d; } cheb;
+/* ghost automaton of ONE Chebyshev step (st: 0 expect residual, 1 expect the diagonal scaling, 2 expect p-update, 3 expect x-update),
+ * it = number of completed steps, ok = sticky "every call so far was the expected one with the expected arguments",
+ * aprev = alpha of the previous step; sc, c, d = copies of prm.scale, c, d (fixed by the precondition)               */
+struct cheb_ghost { int st; unsigned it; _Bool ok; V aprev; _Bool sc; V c, d; } G;
+#define ONE_ MATH_identity(scalar_type)
+#define ZERO_ MATH_zero(scalar_type)
+/* the three-term Chebyshev recurrence for the ellipse with centre d and semi-axis c (Saad, Iterative Methods, Alg. 12.1; Adams et al. 2003):
+ *   alpha_0 = 1/d,  alpha_1 = 2d / (2d^2 - c^2),  alpha_k = 1 / (d - alpha_{k-1} c^2 / 4),   beta_0 = 0,  beta_k = alpha_k d - 1
+ * as terms of the uninterpreted scalar operations, in the evaluation order of the source                                              */
+#define ALPHA_1 UF_MUL(UF_MUL(UF_CONST(2), G.d), math_inverse(UF_SUB(UF_MUL(UF_MUL(UF_CONST(2), G.d), G.d), UF_MUL(G.c, G.c))))
+#define ALPHA_K(prev) math_inverse(UF_SUB(G.d, UF_MUL(UF_MUL(UF_MUL(UF_CONST(0.25), (prev)), G.c), G.c)))
+#define EXP_ALPHA(it, prev) ((it) == 0 ? math_inverse(G.d) : (it) == 1 ? ALPHA_1 : ALPHA_K(prev))
+#define EXP_BETA(it, a) ((it) == 0 ? ZERO_ : UF_SUB(UF_MUL((a), G.d), ONE_))
+#define OLD(e) __CPROVER_old(e)
+#define G_KEEP_COEF (G.sc == OLD(G.sc) && G.c == OLD(G.c) && G.d == OLD(G.d))
+
+/* r = f - A x : step k starts with the residual of the CURRENT x (ids: b = 1, x = 2, p = 4, r = 5, A = 10, M = 20) */
+void cb_residual(const vec *f, const mat *A, const vec *x, vec *r)
+__CPROVER_requires(f->defined && x->defined)
+__CPROVER_assigns(*r, G)
+__CPROVER_ensures(WRITTEN(r) && G_KEEP_COEF && G.it == OLD(G.it) && G.aprev == OLD(G.aprev) && G.st == (OLD(G.sc) ? 1 : 2)
+               && G.ok == (OLD(G.ok) && OLD(G.st) == 0 && f->id == 1 && A->id == 10 && x->id == 2 && r->id == 5));
+/* z = a M .* y + b z : the residual is scaled by the inverted diagonal, in place (only when prm.scale) */
+void cb_vmul(V a, const vec *M, const vec *y, V b, vec *z)
+__CPROVER_requires(M->defined && y->defined && (math_is_zero(b) || z->defined))
+__CPROVER_assigns(*z, G)
+__CPROVER_ensures(WRITTEN(z) && G_KEEP_COEF && G.it == OLD(G.it) && G.aprev == OLD(G.aprev) && G.st == 2
+               && G.ok == (OLD(G.ok) && OLD(G.st) == 1 && a == ONE_ && M->id == 20 && OLD(y->id) == 5 && b == ZERO_ && z->id == 5));
+/* y = a x + b y : st 2: p = alpha_k r + beta_k p;  st 3: x = 1 p + 1 x */
+void cb_axpby(V a, const vec *x, V b, vec *y)
+__CPROVER_requires(x->defined && (math_is_zero(b) || y->defined))
+__CPROVER_assigns(*y, G)
+__CPROVER_ensures(WRITTEN(y) && G_KEEP_COEF
+               && (OLD(G.st) == 2
+                     ? (G.st == 3 && G.it == OLD(G.it) && G.aprev == a
+                        && G.ok == (OLD(G.ok) && x->id == 5 && y->id == 4 && a == EXP_ALPHA(OLD(G.it), OLD(G.aprev)) && b == EXP_BETA(OLD(G.it), a)))
+                     : (G.st == 0 && G.it == OLD(G.it) + 1 && G.aprev == OLD(G.aprev)
+                        && G.ok == (OLD(G.ok) && OLD(G.st) == 3 && a == ONE_ && x->id == 4 && b == ONE_ && y->id == 2))));
+#define residual(f, A, x, r) cb_residual(&(f), &(A), &(x), &(r))
+#define vmul(a, x, y, b, z) cb_vmul(a, &(x), &(y), b, &(z))
+#define axpby(a, x, b, y) cb_axpby(a, &(x), b, &(y))
+
+/* template <class Matrix, class VectorB, class VectorX> void chebyshev::solve(const Matrix &A, const VectorB &b, VectorX &x) const */
+void f_cheb_solve(const cheb *self, const mat *A_p, const vec *b_p, vec *x_p)
+__CPROVER_requires(__CPROVER_is_fresh(self, sizeof(*self)) && __CPROVER_is_fresh(A_p, sizeof(*A_p)) && __CPROVER_is_fresh(b_p, sizeof(*b_p)) && __CPROVER_is_fresh(x_p, sizeof(*x_p)))
+__CPROVER_requires(__CPROVER_is_fresh(self->p, sizeof(vec)) && __CPROVER_is_fresh(self->r, sizeof(vec)) && __CPROVER_is_fresh(self->M, sizeof(vec)))
+/* p and r enter with ANY state (whatever an earlier call left, C15); M is the inverted diagonal when prm.scale */
+__CPROVER_requires(UF_AXIOMS && b_p->defined && x_p->defined && (self->prm.scale ==> self->M->defined))
+__CPROVER_requires(b_p->id == 1 && x_p->id == 2 && self->p->id == 4 && self->r->id == 5 && A_p->id == 10 && self->M->id == 20)
+__CPROVER_requires(G.st == 0 && G.it == 0 && G.ok && G.sc == self->prm.scale && G.c == self->c && G.d == self->d)
+__CPROVER_assigns(*x_p, *self->p, *self->r, G)
+/* C06: exactly `degree` steps  r = [M .*] (b - A x);  p = alpha_k r + beta_k p;  x = x + p  with the coefficients of the recurrence above,
+ * nothing else (every call is an event of the automaton), p is not read in step 0 (beta_0 = 0); degree == 0 leaves x untouched          */
+__CPROVER_ensures(G.ok && G.st == 0 && G.it == self->prm.degree)
+__CPROVER_ensures(x_p->defined && x_p->version == __CPROVER_old(x_p->version) + self->prm.degree)
+{
+  const cheb_prm prm = self->prm;
+#define A (*A_p)
+#define b (*b_p)
+#define x (*x_p)
+/*@CUT:body@*/
+#undef A
+#undef b
+#undef x
+}
+void h_f_cheb_solve(void) { const cheb *s; const mat *A; const vec *b; vec *x; f_cheb_solve(s, A, b, x); }
+"""
+
+CHEB_LOOP = r"""
+__CPROVER_assigns(k, alpha, beta, *x_p, *self->p, *self->r, G)
+__CPROVER_loop_invariant(k <= prm.degree && G.ok && G.st == 0 && G.it == k)
+__CPROVER_loop_invariant(G.sc == self->prm.scale && G.c == self->c && G.d == self->d)
+__CPROVER_loop_invariant(x_p->defined && x_p->id == 2 && self->p->id == 4 && self->r->id == 5)
+__CPROVER_loop_invariant(x_p->version == __CPROVER_loop_entry(x_p->version) + k)
+__CPROVER_loop_invariant(k > 0 ==> (self->p->defined && alpha == G.aprev))
+__CPROVER_decreases(prm.degree - k)
+"""
+
+chebyshev_solve = Unit(
+    name='chebyshev_solve', props=['C06', 'C02', 'C10'],
+    functions=['relaxation::chebyshev<Backend>::solve(const Matrix&, const VectorB&, VectorX&) const'],
+    desc='Chebyshev smoother, every degree: exactly `degree` steps r = [M .*](b - A x), p = alpha_k r + beta_k p, x = x + p with alpha_0 = 1/d, alpha_1 = 2d/(2d^2 - c^2), '
+         'alpha_k = 1/(d - alpha_{k-1} c^2/4), beta_0 = 0, beta_k = alpha_k d - 1 (uninterpreted scalar terms in evaluation order); the residual is taken from the current x, '
+         'scaled by the inverted diagonal iff prm.scale; workspace p, r enter arbitrary and p is not read in step 0; b and A are never written; degree 0 leaves x untouched',
+    cuts={'body': Cut(CHEB, r'template <class Matrix, class VectorB, class VectorX>\s*void solve\(const Matrix &A, const VectorB &b, VectorX &x\) const\s*(?=\{)',
+                      rules=member_rules(['M', 'p', 'r', 'c', 'd']) + [UFArgs('axpby|vmul', '+')],
+                      uf=[UFByType(['scalar_type'])],
+                      loops=[Loop(r'for \(unsigned k = 0;', CHEB_LOOP, prefix=True)])},
+    template=CHEB_T, enforce='f_cheb_solve', replace=['cb_residual', 'cb_vmul', 'cb_axpby'], mode='inductive', obj_bits=12, timeout=300,
+    assumptions=['A-abs: the typestate contracts of residual / vmul / axpby (defined operands, the output is written) are justified by the functional contracts of C07',
+                 'A-uf: scalars are opaque tokens, scalar arithmetic and math::inverse are uninterpreted; only is_zero(zero) and !is_zero(identity) are assumed',
+                 'A-setup: c, d (and M when prm.scale) are the ones the constructor computed (unit chebyshev_ctor)'],
+    replay='relax2',
+    not_decided=['that these coefficients realise the degree-d Chebyshev polynomial that is minimal on [lo, hi] (classical identity about the recurrence the unit pins)',
+                 'the spectrum bounds themselves (Gershgorin / power method: chebyshev_ctor, spectral_radius units)'])
+
+UNITS = [sky_values3, ilu_serial_solve, sptr_solve_lower, sptr_solve_upper, gs_parallel_sweep, spai0_ctor, ilu0_structure, chebyshev_solve]
 for _u in UNITS:
     _u.replay_asan = True     # one replay binary for the whole family (built with ASan/UBSan: out-of-range reads of the real code become visible)
